@@ -26,6 +26,11 @@ func (s tstep) lean() string {
 		return fmt.Sprintf(".uint %d", s.Bits)
 	case "uintalg":
 		return ".uintAlg"
+	case "uintttl":
+		if s.Upper {
+			return ".uintTtl true"
+		}
+		return ".uintTtl false"
 	case "tok":
 		return ".tok"
 	case "name":
@@ -179,6 +184,24 @@ func (p *pkgInfo) parsePlanOf(fd *ast.FuncDecl, depth int) ([]tstep, bool) {
 						continue
 					}
 				}
+			}
+			return nil, false
+		case *ast.DeclStmt:
+			// `var ( v uint32; ok bool )` in front of the SOA loop
+			if p.src(s) == "var(vuint32okbool)" {
+				continue
+			}
+			return nil, false
+		case *ast.ForStmt:
+			// the five numbers of an SOA record: the serial a plain number, the others numbers or TTL strings with units
+			if p.src(s) == soaLoopSrc {
+				for i, f := range []string{"Serial", "Refresh", "Retry", "Expire", "Minttl"} {
+					out = append(out, tstep{Kind: "uintttl", Bits: 32, Field: f, Upper: i == 0})
+					if i < 4 {
+						out = append(out, tstep{Kind: "blank"})
+					}
+				}
+				continue
 			}
 			return nil, false
 		case *ast.ReturnStmt:
@@ -414,3 +437,37 @@ func leanTextPlans(ps []textPlan) string {
 	}
 	return b.String()
 }
+
+// soaLoopSrc: the loop of (*SOA).parse as printed by src() (white space removed); any change to it makes SOA "other"
+var soaLoopSrc = strings.Join(strings.Fields(`for i := 0; i < 5; i++ {
+	l, _ = c.Next()
+	if l.err {
+		return &ParseError{err: "bad SOA zone parameter", lex: l}
+	}
+	if j, err := strconv.ParseUint(l.token, 10, 32); err != nil {
+		if i == 0 {
+			return &ParseError{err: "bad SOA zone parameter", lex: l}
+		}
+		if v, ok = stringToTTL(l.token); !ok {
+			return &ParseError{err: "bad SOA zone parameter", lex: l}
+		}
+	} else {
+		v = uint32(j)
+	}
+	switch i {
+	case 0:
+		rr.Serial = v
+		c.Next()
+	case 1:
+		rr.Refresh = v
+		c.Next()
+	case 2:
+		rr.Retry = v
+		c.Next()
+	case 3:
+		rr.Expire = v
+		c.Next()
+	case 4:
+		rr.Minttl = v
+	}
+}`), "")
